@@ -320,7 +320,7 @@ def t_flen(F, R):
     hook = _name_hook(F, state, pe_box)
     consts, bad, nev = set(), [], 0
     texts = ["a", "$share/g/t", "a/+/#"]
-    todo = {1, 16, S.TOPIC_MAX_BYTES - 1, S.TOPIC_MAX_BYTES, S.TOPIC_MAX_BYTES + 1, 3 * S.TOPIC_MAX_BYTES}
+    todo = {1, 5, 10, 16, S.TOPIC_MAX_BYTES - 1, S.TOPIC_MAX_BYTES, S.TOPIC_MAX_BYTES + 1, 3 * S.TOPIC_MAX_BYTES}
     done = set()
     while todo:
         w = todo.pop()
@@ -328,6 +328,8 @@ def t_flen(F, R):
             continue
         done.add(w)
         for text in texts:
+            if w < len(text):
+                continue        # the explicit characters are a prefix of the abstract text: its length is at least theirs
             state.update({"len": w, "log": [], "chars": [ord(c) for c in text]})
             pe = PE(F, call_hook=hook, fuel=4000)
             pe_box[0] = pe
